@@ -317,17 +317,22 @@ Definition with_exit (fn : hfn) (code : hstmt) (p : predspec) (wf : frame)
       end
   end.
 
-(* with save_and_reraise_exception(reraise=r0, logger=<lab>) as ctx: <block>
-   returns (ctx after the block, ctx at the very end, state, outcome of the block, outcome) *)
-Definition with_sare (r0 : bool) (lab : N) (wf : frame) (block : sare -> state -> sare * state * outcome)
-                     (st : state) : sare * state * outcome * outcome :=
-  match sare_enter wf (sare_new r0 lab st) st with
+(* with ctx: <block>     on an EXISTING context object s (whatever it holds from earlier use)
+   returns (ctx at the very end, state, outcome of the block, outcome of the with statement) *)
+Definition with_same (wf : frame) (block : sare -> state -> sare * state * outcome)
+                     (s : sare) (st : state) : sare * state * outcome * outcome :=
+  match sare_enter wf s st with
   | (s1, st1, Raised j) => (s1, st1, Raised j, Raised j)
   | (s1, st1, Normal) =>
       let '(s2, st2, out) := block s1 st1 in
       let '(s3, st3, out') := with_exit FnExit gen_exit nopred wf s2 st2 out in
       (s3, st3, out, out')
   end.
+
+(* with save_and_reraise_exception(reraise=r0, logger=<lab>) as ctx: <block> *)
+Definition with_sare (r0 : bool) (lab : N) (wf : frame) (block : sare -> state -> sare * state * outcome)
+                     (st : state) : sare * state * outcome * outcome :=
+  with_same wf block (sare_new r0 lab st) st.
 
 (* <filter p>(x): the state afterwards and what it raised, if anything *)
 Definition do_filt_call (p : predspec) (x : option nat) (s : sare) (st : state) : state * option nat :=
@@ -354,7 +359,9 @@ Inductive body :=
 | ForceReraise (l : N)                        (* ctx.force_reraise() *)
 | CaptureDirect (l : N)                       (* ctx.capture() *)
 | Filter (p : predspec) (l : N) (b : body)    (* with <filter p>: b *)
-| FilterCall (p : predspec) (a : fcarg) (l : N).  (* <filter p>(<a>) *)
+| FilterCall (p : predspec) (a : fcarg) (l : N)   (* <filter p>(<a>) *)
+| WithCtx (l : N) (b : body)                  (* with ctx: b      — entering the SAME context object again *)
+| Tamper.                                     (* sys.exc_info()[1].__traceback__ = None *)
 
 Definition pre_tb (k : N) : list frame := if N.eqb k 2 then [FPre] else [].
 
@@ -397,6 +404,13 @@ Fixpoint exec (b : body) (s : sare) (st : state) : sare * state * outcome :=
       match do_filt_call p x s st1 with
       | (st2, Some j) => (s, add_frame (FProg l) j st2, Raised j)
       | (st2, None) => (s, st2, Normal)
+      end
+  | WithCtx l b' =>
+      let '(s3, st', _, out) := with_same (FProg l) (fun s' st' => exec b' s' st') s st in (s3, st', out)
+  | Tamper =>
+      match hstack st with
+      | i :: _ => (s, set_tb i [] st, Normal)
+      | [] => (s, st, Normal)
       end
   end.
 
@@ -535,8 +549,17 @@ Definition filt_call_hand (p : predspec) (x : option nat) (st : state) : state *
    (blocks of nested contexts are unconstrained: they have their own context) *)
 Fixpoint direct_free0 (b : body) : bool :=
   match b with
-  | ForceReraise _ | CaptureDirect _ => false
+  | ForceReraise _ | CaptureDirect _ | WithCtx _ _ => false
   | Seq a c | Try a c => direct_free0 a && direct_free0 c
   | Filter _ _ a => direct_free0 a
+  | _ => true
+  end.
+
+(* no statement anywhere in the body assigns to an exception's __traceback__ *)
+Fixpoint tamper_free (b : body) : bool :=
+  match b with
+  | Tamper => false
+  | Seq a c | Try a c => tamper_free a && tamper_free c
+  | Nested _ _ a | Direct _ a | Filter _ _ a | WithCtx _ a => tamper_free a
   | _ => true
   end.
